@@ -47,7 +47,7 @@ for f in r['findings']:
         fam = f['config'].split(' ')[0]
         fam = 'sweep' if fam.startswith('sweep') else ('variant' if fam.startswith('variant') else fam)
         byinput[(f['property'], f['clause'])][fam].add(f['input'].split('#')[0])
-known = [e for e in old['known'] if e['property'] not in ('C01', 'C02', 'C03', 'C07', 'C08', 'C09', 'C10', 'C18', 'C19')]
+known = [e for e in old['known'] if e.get('source') == 'manual']      # entries of the other families are written by hand
 for k in sorted(byrule):
     prop, clause, rule = k
     what = MANUAL.get(k) or WHAT.get(clause, clause).format(rule=rule)
